@@ -128,6 +128,8 @@ def project(events):
                     a = "RClrFlag" if e["val"] is False else "SSetFlag"
                 elif k == "Deliver":
                     a = f"RDeliverA {coq_msg(e['status'], e['sfv'])}"
+                elif k == "Set" and e.get("attr") == "connected" and e["val"] is False:
+                    a = "ELost"  # connection_lost: from here on the sender drops what it dequeues and stops
                 else:
                     continue
             elif k == "Set" and e.get("attr") == "_keep_alive_pending":
@@ -199,8 +201,66 @@ class Session:
         self.submitted = []  # (thread, kind, text) in program order per thread
 
     def _mkport(self, url):
+        if url.endswith("/decoy"):
+            # a second, independent connection in the same process (its events are kept apart by dsim)
+            self.decoy_dev = dsim.Device(self.sim, respond=self.decoy_respond, latency_us=self.decoy_latency_us, gap_us=700, decoy=True)
+            self.decoy_port = dsim.SimPort(self.sim, self.decoy_dev)
+            return self.decoy_port
         self.port = dsim.SimPort(self.sim, self.dev)
         return self.port
+
+    decoy_latency_us = 30000
+
+    @staticmethod
+    def decoy_respond(line, idx):
+        if line == "@SYS:MODELNAME=?":
+            return ["@SYS:MODELNAME=DECOY-1"]
+        if line.endswith("=?"):
+            return [line[:-1] + "decoy"]
+        return [line]
+
+    def start_decoy(self, rng, n_ops=6, span_s=3.0):
+        """connect a second YncaConnection to a second device and keep it busy from its own caller thread;
+        returns a function that closes it.  Nothing the decoy does may show on the connection under test."""
+        from ynca.connection import YncaConnection
+
+        sim = self.sim
+        self.decoy_deliveries = []
+        self.decoy_disconnects = []
+        with sim.decoy():
+            d = YncaConnection("sim://x/decoy")
+            d.register_message_callback(lambda st, s_, f, v: self.decoy_deliveries.append((st.name, s_, f, v)))
+            d.connect(lambda: self.decoy_disconnects.append(sim.now), 5)
+        self.decoy_conn = d
+        ops = []
+        for _ in range(n_ops):
+            ops.append((rng.random() * span_s / n_ops, rng.choice(["put", "get", "model"])))
+        self.decoy_sent = []
+
+        def run():
+            # this thread is the decoy's own caller: everything it does is decoy traffic
+            sim.cur.decoy = True
+            for dt, kind in ops:
+                dsim._TimeShim(sim).sleep(dt)
+                if kind == "put":
+                    self.decoy_sent.append("@DECOY:VOL=Up")
+                    d.put("DECOY", "VOL", "Up")
+                elif kind == "get":
+                    self.decoy_sent.append("@DECOY:PWR=?")
+                    d.get("DECOY", "PWR")
+                else:
+                    self.decoy_sent.append("@SYS:MODELNAME=?")
+                    d.get("SYS", "MODELNAME")
+
+        th = sim.spawn(run, "decoycaller~")
+
+        def stop():
+            th.join()
+            with sim.decoy():
+                dsim._TimeShim(sim).sleep(0.4)
+                d.close()
+
+        return stop
 
     def run(self, body):
         """body(session) runs on thread 'main' after the port factory is installed"""
